@@ -296,3 +296,49 @@ Fixpoint run_sw (nextw : N -> N) (o : sopts) (st : gstate) (k : N) (goods : list
 
 Fixpoint nseq (k : N) (n : nat) : list N :=
   match n with O => [] | S n' => k :: nseq (k + 1) n' end.
+
+(* ---------------------------------------------------------------------------------------- *)
+(* Content of the foreground estimator (C09 content tie)                                      *)
+(* ---------------------------------------------------------------------------------------- *)
+(* the ghost foreground window after the adapt call of every draw *)
+Fixpoint fg_windows (nextw : N -> N) (o : sopts) (st : gstate) (k : N) (goods : list bool)
+  : list (list Z) :=
+  match goods with
+  | [] => []
+  | g :: gs =>
+      let st1 := fst (gs_adapt nextw o st k g) in
+      w_fg (g_win st1) :: fg_windows nextw o st1 (k + 1) gs
+  end.
+
+(* line ++ [-3] ++ window, pairwise *)
+Fixpoint zip_lines (a b : list (list Z)) : list (list Z) :=
+  match a, b with
+  | x :: a', y :: b' => (x ++ [(-3)%Z] ++ y) :: zip_lines a' b'
+  | _, _ => []
+  end.
+
+(* global_trace with, for every draw, the tags held by the foreground estimator after that
+   draw's adapt (the draws the installed transformation must have been estimated from whenever
+   it is updated at that draw); separator -3 (the window itself may contain the init tag -1) *)
+Definition global_trace_fg (o : sopts) (early_window ssw growth : f64) (num_tune : N)
+  (goods : list bool) : list (list Z) :=
+  match gs_new o early_window ssw growth num_tune with
+  | NewPanic s => [[(-2)%Z; Z.of_N s]]
+  | NewOk st =>
+      print_state st :: print_state (gs_init st) ::
+      zip_lines (chain_trace (next_window_f64 growth) o (gs_init st) 0 goods)
+                (fg_windows (next_window_f64 growth) o (gs_init st) 0 goods)
+  end.
+
+(* ghost: everything that was ever fed to the estimators, oldest first: the initial point and
+   every good draw before the final step-size window *)
+Definition fed_step (num_tune final k : N) (good : bool) : list Z :=
+  if good && (k <? num_tune) && (k <? final) then [Z.of_N k] else [].
+Fixpoint fed_from (num_tune final k : N) (goods : list bool) : list Z :=
+  match goods with
+  | [] => []
+  | g :: gs => fed_step num_tune final k g ++ fed_from num_tune final (k + 1) gs
+  end.
+Definition fed_tags (st0 : gstate) (goods : list bool) : list Z :=
+  init_tag :: fed_from (g_num_tune st0) (g_final st0) 0 goods.
+Definition newer_than (h : Z) (l : list Z) : list Z := filter (fun t => (h <? t)%Z) l.
